@@ -128,6 +128,11 @@ func (c AdditionalProperties) TypeName() bytes.Bytes {
 }
 
 func (c AdditionalProperties) IsEqual(c2 AdditionalProperties) bool {
+	// `true`/"any" and `false` have neither a schema type nor a type name and
+	// would otherwise compare equal.
+	if (c.mode == AdditionalPropertiesNotAllowed) != (c2.mode == AdditionalPropertiesNotAllowed) {
+		return false
+	}
 	return c.schemaType == c2.schemaType && c.typeName.String() == c2.typeName.String()
 }
 
